@@ -23,6 +23,9 @@ def b_moments_flagged(ctx):
         poly = absyn.mono_of(g)
         if any(v not in P["vars"] for v, _ in poly[0][1]):
             continue
+        if not C.surrogate_ok(ctx.srcP, poly):
+            ctx.note("goal_degree_beyond_surrogate")
+            continue
         exact = go.get("is_exact", True)
         for n, val in enumerate(go["values"][ctx.pi][:ctx.N + 1]):
             if exact and "float" in val:
@@ -62,6 +65,8 @@ def main(tier, seed):
             text = gen.render(gen.to_text_template(T), types={k: v for k, v in types.items()})
             extra.append(dict(it, id=it["id"] + "-declared", text=text, types=types, user_typed=sorted(types)))
     items += extra[: (4 if quick else 80)]
+    # Normal / Uniform / Laplace draws with state-dependent location (decided through moment-matched finite laws)
+    items += C.generated(seed + 13, 4 if quick else 40, profile={"cont": True, "params": False, "sym_init": False}, ngoals=4, prefix="genk")
     # declared instead of inferred types on variables that are assigned more than once per iteration
     body = "x = 0\ny = 0\nz = 0\nwhile true:\n    x = Bernoulli(1/2)\n    if x == 1:\n        y = y + 1\n    end\n    z = z + x**2\n    x = 2*x\nend\n"
     body2 = "f = 1\ns = 0\nwhile true:\n    f = DiscreteUniform(1, 3)\n    s = s + f**3\n    f = f - 1\n    if f == 0:\n        s = s + 1\n    end\n    f = 2*f\nend\n"
@@ -83,7 +88,7 @@ def main(tier, seed):
         variants += [("-c2a-tc", {"cond2arithm": True, "transform_categoricals": True}),
                      ("-nr4", {"numeric_roots": True, "numeric_eps": 1e-4}),
                      ("-cyc-c2a", {"__force_cyclic": True, "cond2arithm": True})]
-    return analysis_check("C17", tier, seed, items=items, want=["parsed", "moments"], variants=variants,
+    return analysis_check("C17", tier, seed, items=items, want=["parsed", "moments", "cont"], variants=variants,
                           builders=[C.b_source, b_moments_flagged], N=5 if quick else 8, timeout=90,
                           assumptions=["rounded results (is_exact = False) may deviate by (|v|+1)*1e-5",
                                        "force_cyclic_solver is not reachable from the CLI; the harness passes it to RecurrenceSolver through a run-time wrapper"])
